@@ -223,8 +223,8 @@ class Ctx:
             self.branches += d["branches"]
             for h in d["harness_errors"]:
                 self.harness_error("[%s] %s" % (name, h))
-            for (key, what, data, fn) in d["violations"]:
-                self.violation(key, what, data, fn)
+            for (key, what, data, fn, soft) in d["violations"]:
+                self.violation(key, what, data, fn, soft=soft)
 
     def witness(self, name, formulas, ex=None, timeout=None, expect="sat"):
         """A reachability / sanity twin: ``formulas`` must be satisfiable."""
@@ -253,7 +253,7 @@ class Ctx:
         self.inconclusive.append({"query": name, "reason": reason})
 
     # ------------------------------------------------------------------ violations
-    def violation(self, key, what, data, reproduce):
+    def violation(self, key, what, data, reproduce, soft=False):
         """A solver counterexample.  ``reproduce(data)`` runs the *real* code and returns
         (reproduced: bool, detail).  Only reproduced failures are reported."""
         try:
@@ -264,6 +264,10 @@ class Ctx:
         rec = {"key": key, "what": what, "data": _jsonable(data), "reproduced": bool(ok), "detail": _jsonable(detail)}
         self.replays.append(rec)
         if not ok:
+            if soft:
+                # a lemma stricter than the observable property (stated where used): not reproducible => inconclusive
+                self.mark_inconclusive(key, "symbolic counterexample (%s) has no observable effect in the replay scenario: %s" % (what, detail))
+                return False
             self.harness_error("counterexample for %s (%s) did not reproduce on the real code: %s" % (key, what, detail))
             return False
         for k in self.known:
@@ -391,7 +395,7 @@ def _run_section(i):
     sub.paths = sub.branches = 0
     viol = []
     sub.harness_error = lambda msg: sub.harness_errors.append(msg)
-    sub.violation = lambda key, what, data, fn: (viol.append((key, what, _jsonable(data), fn)), True)[1]
+    sub.violation = lambda key, what, data, fn, soft=False: (viol.append((key, what, _jsonable(data), fn, soft)), True)[1]
     try:
         fn(sub)
     except BaseException as e:  # noqa
